@@ -28,6 +28,10 @@
 (*   Cancel     (mode "cancel")  the request context ends at the current    *)
 (*                               label; the writer goes on by itself       *)
 (*   write error(mode "werr")    every write of chunk k fails              *)
+(*   rival      (cf.rival = L)   a second PUT of the same block runs to its *)
+(*                               acknowledgement while this one stands at   *)
+(*                               label L; whatever happens to this one      *)
+(*                               afterwards, the acknowledged block stays   *)
 (*   pre "dir" / "nodir"         rename / mkdir fail                       *)
 (*                                                                         *)
 (* Files.  ent = what the block path names: "absent", "pre" (what the      *)
@@ -39,7 +43,10 @@
 (***************************************************************************)
 EXTENDS Integers, Sequences, FiniteSets, TLC, Json, IOUtils
 
-CONSTANTS Chunks,      \* set of block sizes in chunks, e.g. {0, 1, 3}
+CONSTANTS Rivals,      \* {""} or a set of labels: while THIS upload stands at the label (first Put attempt,
+                       \* i.e. past CompareAndTouch), a SECOND upload of the same block runs from start to
+                       \* acknowledgement; afterwards this one goes on and may fail or be cancelled
+          Chunks,      \* set of block sizes in chunks, e.g. {0, 1, 3}
           Pres,        \* subset of {"none","intact_old","corrupt_old","dir","nodir"}
           Modes,       \* subset of {"none","kill","killack","cancel","werr"}
           TmpLooksLikeBlock   \* FALSE in the real code: "tmp"+H+random never matches ^[0-9a-f]{32}$
@@ -52,6 +59,7 @@ VARIABLES phase, pre, acked,        \* contract ghost state
           newk,      \* chunks held by the inode named by ent = "new"
           tmp,       \* chunks written to the current temp file, -1 = none
           junk,      \* number of temp files left behind
+          rdone,     \* the rival upload (cf.rival) has run
           touched,   \* Touch set the timestamp of the existing copy
           cancelled, \* the request context has ended
           point,     \* label at which the kill / cancel / error was applied ("" = not yet)
@@ -63,13 +71,20 @@ VARIABLES phase, pre, acked,        \* contract ghost state
 
 C == INSTANCE KeepstorePutContract
 pvars == <<phase, pre, acked>>
-vars == <<pvars, cf, pc, att, ent, newk, tmp, junk, touched, cancelled, point, occ, reply, wdone, obs, viol>>
+vars == <<pvars, cf, pc, att, ent, newk, tmp, junk, rdone, touched, cancelled, point, occ, reply, wdone, obs, viol>>
 
 WriteLabel(k) == IF k = 1 THEN "WriteBlock.Write#1" ELSE IF k = 2 THEN "WriteBlock.Write#2" ELSE "WriteBlock.Write#3"
 
-Init == \E p \in Pres, n \in Chunks, m \in Modes :
-          /\ cf = [pre |-> p, n |-> n, mode |-> m]
+RivalLabels == {"WriteBlock.IsFull", "WriteBlock.MkdirAll", "WriteBlock.TempFile", "WriteBlock.lock", "WriteBlock.Copy",
+                "WriteBlock.Write#1", "WriteBlock.Write#2", "WriteBlock.Write#3", "WriteBlock.tmpfile.Close",
+                "WriteBlock.Chtimes", "WriteBlock.OpenFile", "WriteBlock.lockfile", "WriteBlock.Rename"}
+
+Init == \E p \in Pres, n \in Chunks, m \in Modes, rv \in Rivals :
+          /\ cf = [pre |-> p, n |-> n, mode |-> m, rival |-> rv]
           /\ (m = "werr" => n > 0)
+          \* a second, overlapping upload of the same block (rival) is combined with the in-process faults
+          /\ (rv # "" => (rv \in RivalLabels /\ m \in {"none", "cancel", "werr"} /\ p \in {"none", "corrupt_old"}))
+          /\ rdone = FALSE
           /\ pc = "start" /\ att = 1
           /\ ent = IF p \in {"none", "nodir"} THEN "absent" ELSE "pre"
           /\ newk = 0 /\ tmp = -1 /\ junk = 0 /\ touched = FALSE /\ cancelled = FALSE
@@ -85,7 +100,7 @@ Labels == {"Compare.stat", "Compare.getFunc", "Touch.OpenFile", "Touch.lock", "T
 Start == /\ pc = "start"
          /\ C!PutStartEff(cf.pre)
          /\ pc' = "Compare.stat"
-         /\ UNCHANGED <<cf, att, ent, newk, tmp, junk, touched, cancelled, point, occ, reply, wdone, obs, viol>>
+         /\ UNCHANGED <<cf, att, ent, newk, tmp, junk, rdone, touched, cancelled, point, occ, reply, wdone, obs, viol>>
 
 (* the handler answers (once) *)
 Answer(st) == /\ reply' = st
@@ -95,90 +110,92 @@ Answer(st) == /\ reply' = st
 (* WriteBlock failed: second attempt on "every writable volume", or give up *)
 AfterFail == IF cancelled \/ att = 2 THEN "failed" ELSE "retry"
 
+RivalDue == cf.rival # "" /\ ~rdone /\ pc = cf.rival /\ att = 1
+
 Step ==
-    /\ pc \in Labels
+    /\ pc \in Labels /\ ~RivalDue
     /\ UNCHANGED <<cf, cancelled, point, occ, obs>>
     /\ CASE pc = "Compare.stat" ->
               \* stat(block path): nothing there (or not a directory above it) -> go and write
               /\ pc' = IF ent = "absent" THEN "WriteBlock.IsFull" ELSE "Compare.getFunc"
-              /\ UNCHANGED <<pvars, att, ent, newk, tmp, junk, touched, reply, wdone, viol>>
+              /\ UNCHANGED <<pvars, att, ent, newk, tmp, junk, rdone, touched, reply, wdone, viol>>
          [] pc = "Compare.getFunc" ->
               \* open + compare; ctx is checked while comparing
               /\ pc' = IF cancelled THEN "failed"
                       ELSE IF cf.pre = "intact_old" THEN "Touch.OpenFile" ELSE "WriteBlock.IsFull"
-              /\ UNCHANGED <<pvars, att, ent, newk, tmp, junk, touched, reply, wdone, viol>>
+              /\ UNCHANGED <<pvars, att, ent, newk, tmp, junk, rdone, touched, reply, wdone, viol>>
          [] pc \in {"Touch.OpenFile", "Touch.lock", "Touch.lockfile"} ->
               /\ pc' = CASE pc = "Touch.OpenFile" -> "Touch.lock" [] pc = "Touch.lock" -> "Touch.lockfile"
                          [] OTHER -> "Touch.Chtimes"
-              /\ UNCHANGED <<pvars, att, ent, newk, tmp, junk, touched, reply, wdone, viol>>
+              /\ UNCHANGED <<pvars, att, ent, newk, tmp, junk, rdone, touched, reply, wdone, viol>>
          [] pc = "Touch.Chtimes" ->
               \* Touch does not look at the request context: success is reported
               /\ touched' = TRUE
               /\ pc' = "ok"
-              /\ UNCHANGED <<pvars, att, ent, newk, tmp, junk, reply, wdone, viol>>
+              /\ UNCHANGED <<pvars, att, ent, newk, tmp, junk, rdone, reply, wdone, viol>>
          [] pc \in {"WriteBlock.IsFull", "WriteBlock.lock", "WriteBlock.Copy"} ->
               /\ pc' = CASE pc = "WriteBlock.IsFull" -> "WriteBlock.MkdirAll"
                          [] pc = "WriteBlock.lock" -> "WriteBlock.Copy"
                          [] OTHER -> IF cf.n = 0 THEN "WriteBlock.eof" ELSE WriteLabel(1)
-              /\ UNCHANGED <<pvars, att, ent, newk, tmp, junk, touched, reply, wdone, viol>>
+              /\ UNCHANGED <<pvars, att, ent, newk, tmp, junk, rdone, touched, reply, wdone, viol>>
          [] pc = "WriteBlock.MkdirAll" ->
               /\ pc' = IF cf.pre = "nodir" THEN AfterFail ELSE "WriteBlock.TempFile"
-              /\ UNCHANGED <<pvars, att, ent, newk, tmp, junk, touched, reply, wdone, viol>>
+              /\ UNCHANGED <<pvars, att, ent, newk, tmp, junk, rdone, touched, reply, wdone, viol>>
          [] pc = "WriteBlock.TempFile" ->
               /\ tmp' = 0
               /\ pc' = "WriteBlock.lock"
-              /\ UNCHANGED <<pvars, att, ent, newk, junk, touched, reply, wdone, viol>>
+              /\ UNCHANGED <<pvars, att, ent, newk, junk, rdone, touched, reply, wdone, viol>>
          [] pc \in {"WriteBlock.Write#1", "WriteBlock.Write#2", "WriteBlock.Write#3"} ->
               \* the chunk was read from the pipe before the label; the write may be made to fail
               /\ IF cf.mode = "werr" /\ point = pc
                  THEN /\ pc' = "WriteBlock.errClose" /\ tmp' = tmp
                  ELSE /\ tmp' = tmp + 1
                       /\ pc' = IF tmp + 1 < cf.n THEN WriteLabel(tmp + 2) ELSE "WriteBlock.eof"
-              /\ UNCHANGED <<pvars, att, ent, newk, junk, touched, reply, wdone, viol>>
+              /\ UNCHANGED <<pvars, att, ent, newk, junk, rdone, touched, reply, wdone, viol>>
          [] pc = "WriteBlock.tmpfile.Close" ->
               /\ pc' = "WriteBlock.Chtimes"
-              /\ UNCHANGED <<pvars, att, ent, newk, tmp, junk, touched, reply, wdone, viol>>
+              /\ UNCHANGED <<pvars, att, ent, newk, tmp, junk, rdone, touched, reply, wdone, viol>>
          [] pc = "WriteBlock.Chtimes" ->
               /\ pc' = "WriteBlock.OpenFile"
-              /\ UNCHANGED <<pvars, att, ent, newk, tmp, junk, touched, reply, wdone, viol>>
+              /\ UNCHANGED <<pvars, att, ent, newk, tmp, junk, rdone, touched, reply, wdone, viol>>
          [] pc = "WriteBlock.OpenFile" ->
               \* open the file being replaced (O_RDWR): absent or a directory -> no flock is taken
               /\ pc' = IF ent = "absent" \/ cf.pre = "dir" THEN "WriteBlock.Rename" ELSE "WriteBlock.lockfile"
-              /\ UNCHANGED <<pvars, att, ent, newk, tmp, junk, touched, reply, wdone, viol>>
+              /\ UNCHANGED <<pvars, att, ent, newk, tmp, junk, rdone, touched, reply, wdone, viol>>
          [] pc = "WriteBlock.lockfile" ->
               /\ pc' = "WriteBlock.Rename"
-              /\ UNCHANGED <<pvars, att, ent, newk, tmp, junk, touched, reply, wdone, viol>>
+              /\ UNCHANGED <<pvars, att, ent, newk, tmp, junk, rdone, touched, reply, wdone, viol>>
          [] pc = "WriteBlock.Rename" ->
               \* rename(tmp, block path); fails if a directory is there
               /\ IF cf.pre = "dir"
                  THEN /\ pc' = "WriteBlock.Remove" /\ UNCHANGED <<ent, newk, tmp>>
                  ELSE /\ ent' = "new" /\ newk' = tmp /\ tmp' = -1 /\ pc' = "ok"
-              /\ UNCHANGED <<pvars, att, junk, touched, reply, wdone, viol>>
+              /\ UNCHANGED <<pvars, att, junk, rdone, touched, reply, wdone, viol>>
          [] pc = "WriteBlock.errClose" ->
               /\ pc' = "WriteBlock.Remove"
-              /\ UNCHANGED <<pvars, att, ent, newk, tmp, junk, touched, reply, wdone, viol>>
+              /\ UNCHANGED <<pvars, att, ent, newk, tmp, junk, rdone, touched, reply, wdone, viol>>
          [] pc = "WriteBlock.Remove" ->
               /\ tmp' = -1
               /\ pc' = AfterFail
-              /\ UNCHANGED <<pvars, att, ent, newk, junk, touched, reply, wdone, viol>>
+              /\ UNCHANGED <<pvars, att, ent, newk, junk, rdone, touched, reply, wdone, viol>>
 
 (* the next read from the pipe: EOF after the last chunk (the copier finished and the pipe was    *)
 (* closed normally) or, once the context has ended, the error the pipe was closed with            *)
 Eof == /\ pc = "WriteBlock.eof"
        /\ \/ pc' = "WriteBlock.tmpfile.Close"
           \/ cancelled /\ pc' = "WriteBlock.errClose"
-       /\ UNCHANGED <<pvars, cf, att, ent, newk, tmp, junk, touched, cancelled, point, occ, reply, wdone, obs, viol>>
+       /\ UNCHANGED <<pvars, cf, att, ent, newk, tmp, junk, rdone, touched, cancelled, point, occ, reply, wdone, obs, viol>>
 
 (* once the context has ended, a read of a further chunk fails instead *)
 ReadFails == /\ cancelled
              /\ pc \in {"WriteBlock.Write#1", "WriteBlock.Write#2", "WriteBlock.Write#3"}
              /\ pc' = "WriteBlock.errClose"
-             /\ UNCHANGED <<pvars, cf, att, ent, newk, tmp, junk, touched, cancelled, point, occ, reply, wdone, obs, viol>>
+             /\ UNCHANGED <<pvars, cf, att, ent, newk, tmp, junk, rdone, touched, cancelled, point, occ, reply, wdone, obs, viol>>
 
 Retry == /\ pc = "retry"
          /\ att' = 2
          /\ pc' = "WriteBlock.IsFull"
-         /\ UNCHANGED <<pvars, cf, ent, newk, tmp, junk, touched, cancelled, point, occ, reply, wdone, obs, viol>>
+         /\ UNCHANGED <<pvars, cf, ent, newk, tmp, junk, rdone, touched, cancelled, point, occ, reply, wdone, obs, viol>>
 
 (* the writer has finished; the handler answers unless it already did (cancel) *)
 Finish == /\ pc \in {"ok", "failed"}
@@ -188,7 +205,7 @@ Finish == /\ pc \in {"ok", "failed"}
                               ELSE IF cancelled THEN {503} ELSE {500}) : Answer(st)
              ELSE UNCHANGED <<pvars, reply, viol>>
           /\ pc' = "end"
-          /\ UNCHANGED <<cf, att, ent, newk, tmp, junk, touched, cancelled, point, occ, obs>>
+          /\ UNCHANGED <<cf, att, ent, newk, tmp, junk, rdone, touched, cancelled, point, occ, obs>>
 
 (* mode "kill": the process dies at the current label (before its system call) *)
 Crash == /\ cf.mode = "kill" /\ point = "" /\ pc \in Labels /\ reply = 0
@@ -198,36 +215,47 @@ Crash == /\ cf.mode = "kill" /\ point = "" /\ pc \in Labels /\ reply = 0
          /\ junk' = IF tmp >= 0 THEN junk + 1 ELSE junk
          /\ pc' = "dead"
          /\ wdone' = TRUE
-         /\ UNCHANGED <<cf, att, ent, newk, tmp, touched, cancelled, reply, obs>>
+         /\ UNCHANGED <<cf, att, ent, newk, tmp, rdone, touched, cancelled, reply, obs>>
 
 (* mode "killack": the process dies right after the acknowledgement *)
 CrashAfterAck == /\ cf.mode = "killack" /\ pc = "end" /\ point = "" /\ obs = 0
                  /\ point' = "ack"
                  /\ C!RestartEff
-                 /\ UNCHANGED <<cf, pc, att, ent, newk, tmp, junk, touched, cancelled, occ, reply, wdone, obs, viol>>
+                 /\ UNCHANGED <<cf, pc, att, ent, newk, tmp, junk, rdone, touched, cancelled, occ, reply, wdone, obs, viol>>
 
 (* mode "cancel": the client goes away at the current label.  Inside Compare and WriteBlock the   *)
 (* handler returns 503 at once (putWithPipe / CompareAndTouch see ctx.Done) and the writer goes   *)
 (* on by itself; Touch ignores the context.                                                       *)
 Cancel == /\ cf.mode = "cancel" /\ point = "" /\ pc \in Labels /\ reply = 0
+          \* with a rival: cancelled after the rival's acknowledgement, at a later label
+          /\ (cf.rival # "" => (rdone /\ pc # cf.rival))
           /\ point' = pc /\ occ' = att
           /\ cancelled' = TRUE
           /\ IF pc \in {"Touch.OpenFile", "Touch.lock", "Touch.lockfile", "Touch.Chtimes", "Compare.stat", "Compare.getFunc"}
              THEN UNCHANGED <<pvars, reply, viol>>
              ELSE \/ Answer(503)
                   \/ UNCHANGED <<pvars, reply, viol>>     \* the select in putWithPipe may still pick the result
-          /\ UNCHANGED <<cf, pc, att, ent, newk, tmp, junk, touched, wdone, obs>>
+          /\ UNCHANGED <<cf, pc, att, ent, newk, tmp, junk, rdone, touched, wdone, obs>>
           \* (point', occ', cancelled' are set above)
+
+(* The rival upload, atomically: its CompareAndTouch finds nothing usable (this upload is past its own, so the   *)
+(* block was absent or corrupt), it writes its own temp file and renames it into place, and is acknowledged.     *)
+RivalPut == /\ cf.rival # "" /\ ~rdone /\ pc = cf.rival /\ att = 1 /\ point \in {"", "WriteBlock.Write#1", "WriteBlock.Write#2", "WriteBlock.Write#3"}
+            /\ ~cancelled /\ (cf.mode = "werr" => point # "" /\ point # pc)
+            /\ rdone' = TRUE
+            /\ ent' = "rival"
+            /\ C!RivalAckEff
+            /\ UNCHANGED <<cf, pc, att, newk, tmp, junk, touched, cancelled, point, occ, reply, wdone, obs, viol>>
 
 (* mode "werr": choose the chunk whose write fails *)
 ChooseErr == /\ cf.mode = "werr" /\ point = "" /\ pc = "start"
              /\ \E k \in 1 .. cf.n : point' = WriteLabel(k)
              /\ occ' = 1
-             /\ UNCHANGED <<pvars, cf, pc, att, ent, newk, tmp, junk, touched, cancelled, reply, wdone, obs, viol>>
+             /\ UNCHANGED <<pvars, cf, pc, att, ent, newk, tmp, junk, rdone, touched, cancelled, reply, wdone, obs, viol>>
 
 -----------------------------------------------------------------------------
 (* Observation by a fresh handler (or the same one) once nothing is running *)
-Complete == (ent = "new" /\ newk = cf.n) \/ (ent = "pre" /\ cf.pre = "intact_old")
+Complete == (ent = "new" /\ newk = cf.n) \/ (ent = "pre" /\ cf.pre = "intact_old") \/ ent = "rival"
 GetClass == IF Complete THEN "complete"
             ELSE IF ent = "new" THEN "partial"      \* a short file would be served as an error by GET
                                                     \* (re-hash) but it would be LISTED: see IndexClass
@@ -248,15 +276,15 @@ Observe ==
          [] obs = 3 -> /\ C!ObserveEff
                        /\ viol' = (viol \/ ~C!DirScanOk(IF ent = "absent" THEN "absent" ELSE IndexClass[1],
                                                         TmpLooksLikeBlock /\ (junk > 0 \/ tmp >= 0)))
-    /\ UNCHANGED <<cf, pc, att, ent, newk, tmp, junk, touched, cancelled, point, occ, reply, wdone>>
+    /\ UNCHANGED <<cf, pc, att, ent, newk, tmp, junk, rdone, touched, cancelled, point, occ, reply, wdone>>
 
-Next == Start \/ Step \/ Eof \/ ReadFails \/ Retry \/ Finish \/ Crash \/ CrashAfterAck \/ Cancel \/ ChooseErr \/ Observe
+Next == Start \/ Step \/ RivalPut \/ Eof \/ ReadFails \/ Retry \/ Finish \/ Crash \/ CrashAfterAck \/ Cancel \/ ChooseErr \/ Observe
 
 Spec == Init /\ [][Next]_vars
 
 -----------------------------------------------------------------------------
 TypeOK == /\ tmp \in -1 .. 3 /\ newk \in 0 .. 3 /\ att \in 1 .. 2 /\ obs \in 0 .. 4
-          /\ ent \in {"absent", "pre", "new"}
+          /\ ent \in {"absent", "pre", "new", "rival"}
 
 (* the contract is never breached *)
 ContractHolds == ~viol
@@ -274,7 +302,7 @@ NoLeftovers == (pc = "end" /\ wdone) => (tmp = -1 /\ junk = 0)
 -----------------------------------------------------------------------------
 (* Scenario emission: one record per (pre, size, mode, point) *)
 Emit == (obs = 4) =>
-          Serialize(<<[id |-> 0, pre |-> cf.pre, n |-> cf.n, mode |-> cf.mode, point |-> point, occ |-> occ,
+          Serialize(<<[id |-> 0, pre |-> cf.pre, n |-> cf.n, mode |-> cf.mode, point |-> point, occ |-> occ, rival |-> cf.rival, rdone |-> rdone,
                        expect_reply |-> reply, expect_ent |-> ent]>>,
                     IOEnv.VERIF_OUT,
                     [format |-> "NDJSON", charset |-> "UTF-8",
